@@ -13,7 +13,10 @@ ASSUMPTIONS = ["open findings F6b (non-blocking BUS send refused) and F7 (non-bl
 def queries(tier):
     def pred(sk, q):
         return sk.endswith(" Z") or " O(" in sk or " B(" in sk or " Q(" in sk or " N(" in sk or " P(" in sk
-    qs = _cross.pick(tier, pred, 22 if tier == "quick" else 100000, bus_excl=True)
+    # situations in which a send does not succeed (the message must stay with the caller and be freed by nobody else): a request superseded by
+    # a second send on the same context, a cancelled or refused send, a pipe lost or the socket closed while a send is pending
+    prefer = (r"S\((\d),\d,\d\) S\(\1,", r"S\([^)]*\) X\(", r"S\([^)]*,0\)", r"S\([^)]*\) C\(", r"S\([^)]*,1\) Z")
+    qs = _cross.pick(tier, pred, 30 if tier == "quick" else 100000, bus_excl=True, prefer=prefer)
     for q in C18.queries(tier):
         if q.name.startswith(("lmq-fini", "lmq-flush", "lmq-resize", "msgq-fini", "msgq-close", "msgq-resize")):
             qs.append(q)
